@@ -9,106 +9,19 @@ TRUSTED_BASE = [
 ]
 
 
-def _c15_nontrivial(cf):
-    kind = cf[2]
-    if kind == "ops":
-        obs = cf[6]
-        return ("-0" in obs) or (obs.count(",") + 1 < cf[5].count(";") + 1) or ":" in obs
-    if kind == "nums":
-        return cf[3] != ""
-    if kind == "parse":
-        return cf[5] != "err"
-    return False
-
-
-HOOK_COMMITS = []
+HOOK_COMMITS = ["fb8017e", "a6848c7"]
 
 # reasons for properties that are not claimed (yet)
 NOT_CLAIMED = {}
 
-def _c20_nontrivial(cf):
-    import binascii
-    pat = cf[6]
-    return pat != "-" and (b"*" in binascii.unhexlify(pat) or b"%" in binascii.unhexlify(pat))
+import glob as _glob, importlib as _importlib, os as _os
 
-
-def _c16_nontrivial(cf):
-    # a shift sequence was produced or consumed: '&' (0x26) followed by something other than '-'
-    import re
-    return re.search(r"26(?!2d)", cf[3]) is not None or (cf[2] in ("enc", "enct") and re.search(r"26(?!2d)", "\t".join(cf[4:])) is not None)
-
-
-def _c19_nontrivial(cf):
-    # both operands constrain something / several keys or a nested key
-    if cf[2] == "and":
-        return cf[3] != "()" and cf[4] != "()"
-    if cf[2] == "keys":
-        return " " in cf[3]
-    return cf[3] != "()"
-
-
-def _c07_nontrivial(cf):
-    # some session had a non-empty queue when queried: an update was queued while a session was live
-    ops = cf[5].split(";")
-    live = False
-    for o in ops:
-        if o[0] == "N":
-            live = True
-        elif live and o[0] in "nemf":
-            return True
-    return False
-
-
-PROPS = {
-    "C07": dict(
-        correspondence="GoImap.Tracker (Model/Tracker.lean) vs imapserver.MailboxTracker/SessionTracker: updates emitted by every Poll (captured on the wire of a real server connection: NOOP = expunges allowed, FETCH = not) and DecodeSeqNum/EncodeSeqNum of every number 0..max+2 for every live session after every step",
-        rule="random histories (length 3..40, 1..4 sessions created and closed anywhere, QueueNumMessages(+k), k in {0,1,2,3,7}, QueueExpunge, QueueMailboxFlags, QueueMessageFlags with/without source, Poll with/without permission to expunge) plus a corpus of past failures; non-trivial = an update was queued while a session was live; distinct = different case line",
-        nontrivial=_c07_nontrivial,
-        trusted=["the wire rendering of updates (UpdateWriter) is parsed by the harness"],
-        assumptions=["operations are valid calls (expunge/flags numbers within the mailbox, counts never decrease): the Go code panics otherwise, outside the property's domain"],
-        leanchecker=True,
-        level_text="proof: theorems about the mirrored tracker (poll emits an expunge-free prefix or everything, in order; decode/encode identify the same ghost message identity or 0) for all histories; the mirror is tied to imapserver's tracker on every run and a ghost-identity specification judges every poll and every translation of the implementation",
-        level_note="Trusted: Lean kernel; harness/driver. decode_spec/encode_spec/inv_reachable are listed at the top of lean/GoImap/Props/C07.lean with their status.",
-    ),
-    "C19": dict(
-        correspondence="GoImap.Search (Model/Search.lean): Crit.and vs imap.SearchCriteria.And (resulting struct, field by field); matchesC vs imapmemserver message.search (via the verif hook); foldKeys vs the criteria the real server parser hands to a recording session for raw SEARCH lines",
-        rule="random criteria pairs over every field (sets, four date bounds, headers, body/text, flags, size bounds incl. unset/negative, NOT/OR depth<=2); random criteria x random messages; raw SEARCH commands of 1..8 keys (every key kind, nesting depth<=2, case variants, atom/quoted strings) each also in two random permutations. Non-trivial = both operands non-empty (and) / more than one key or a nested key (keys) / non-empty criteria (msg); distinct = different case line",
-        nontrivial=_c19_nontrivial,
-        trusted=["time.Time truncation to the calendar day, go-message header parsing and bytes.ToLower are below the modelled interface (the harness hands the model the truncated dates and lower-cased ASCII text)"],
-        assumptions=["message sizes are non-negative", "strings are ASCII (bytes.ToLower on non-ASCII is not modelled)", "SearchCriteria.ModSeq is outside the model (no matcher in the repository gives it meaning; And ignores it)"],
-        leanchecker=True,
-        level_text="proof: matches_and shows Crit.and is intersection for all criteria pairs (every field, arbitrary NOT/OR sub-trees) and all messages; legacy_and_counterexample keeps the machine-checked witness that the shipped And was not. The model is tied to SearchCriteria.And, to the in-memory backend's matcher and to the server's search-key parser on every run; the oracle evaluates And and key lists on a 96-message universe against the per-key RFC semantics",
-        level_note="Trusted: Lean kernel; harness/driver; time/go-message/bytes library code below the modelled interface. fold_keys (parser = conjunction of keys) is validated by the oracle, not yet proved.",
-    ),
-    "C16": dict(
-        correspondence="GoImap.Utf7 (Model/Utf7.lean) encode/decode vs utf7.Encoding one-shot String API; decTransform/encTransform vs explicit Transformer.Transform calls (nDst, nSrc, error class, bytes written, carried ascii flag through the next call)",
-        rule="encoder: every string over a 10-symbol code-point alphabet (ASCII, &, -, comma, ~, U+0001, U+007F, 2/3/4-byte code points) up to length 4 (thorough 5), random longer ones over boundary code points; decoder: every string over {& - A B / + , = a CR 0x80} up to length 4 (thorough 6), a corpus of malformed forms, encoder outputs and their mutations; streaming: random (reveal 0..4, dst capacity 1..8) schedules and every split point of the corpus. Non-trivial = a shift sequence is produced or consumed; distinct = different case line",
-        nontrivial=_c16_nontrivial,
-        trusted=["unicode/utf8 (DecodeRune/EncodeRune) and encoding/base64 are modelled by own functions (utf8enc/utf8dec/b64enc/b64dec); x/text/transform's String loop is trusted to follow the Transformer contract"],
-        assumptions=["encoder input is valid UTF-8 (invalid input is only checked for 'no panic, printable output')"],
-        leanchecker=True,
-        level_text="proof: Lean theorems about the mirrored encoder/decoder state machines (round trip, output form, rejection of the malformed forms, chunking independence) for all strings; the mirrors are tied to internal/utf7 on every run through the one-shot API and through explicit Transform calls with adversarial buffer sizes, and an independent bit-stream decoder written from RFC 3501/2152 judges every implementation answer",
-        level_note="Trusted: Lean kernel; harness/driver; utf8/base64/transform library code below the modelled interface. Theorems still missing are listed at the top of lean/GoImap/Props/C16.lean; those clauses are validated by the oracle only.",
-    ),
-    "C20": dict(
-        correspondence="GoImap.ListMatch.matchListTop (Model/ListMatch.lean) vs imapserver.MatchList on the same (name, delimiter, reference, pattern)",
-        rule="exhaustive small scope: every name over {a,b,/} up to length 5 (thorough 6) x every pattern over {a,b,/,*,%} up to length 4 (thorough 5) x delimiter {'/', none} x references {'', a, a/, b/a}, one case line per (delimiter, reference, pattern) carrying a bitmap over all names; plus random longer names/patterns incl. UTF-8 and other delimiters. Non-trivial = the pattern contains a wildcard; distinct = different case line",
-        nontrivial=_c20_nontrivial,
-        exhaustive=True,
-        trusted=["strings.IndexAny/HasPrefix/TrimPrefix are modelled by byte-level recursion (agreement exercised exhaustively in the small scope)"],
-        assumptions=["the oracle (theorems and Spec) covers an absent or single-byte ASCII delimiter; other delimiter runes are compared with the model only"],
-        leanchecker=True,
-        level_text="proof: matchList_iff shows the mirrored recursive matcher accepts exactly the names the inductive wildcard semantics (Spec.Matches) accepts, for all patterns, names and delimiters; the mirror is tied to imapserver.MatchList exhaustively in a small scope and randomly beyond on every run, and an independent position-set matcher written from the RFC is evaluated on the implementation's answers",
-        level_note="Trusted: Lean kernel; harness/driver; the byte-level normal form of the chunked Go loop (validated exhaustively for names<=5/patterns<=4 over a 3/5-letter alphabet).",
-    ),
-    "C15": dict(
-        correspondence="GoImap.NumSet (Model/NumSet.lean) vs internal/imapnum.Set and imap.SeqSet/UIDSet: ranges, String, Dynamic, Contains on probes, Nums, ParseSet after every operation",
-        rule="op sequences (length<=12, endpoints from small numbers, 2^31, 2^32-4..2^32-1 and '*'; all sequences of length<=2 (quick) / <=3 (thorough) over a 7-value alphabet), enumeration of every resulting set of cardinality<=20000, grammar-generated and mutated sequence-set texts; a case is non-trivial when a merge, a proper range or a dynamic element is involved (ops), the set is non-empty (nums) or the text parses (parse); distinct = different case line after dropping the id",
-        nontrivial=_c15_nontrivial,
-        trusted=["strconv.ParseUint/AppendUint base 10 are modelled by own digit functions (agreement exercised by the tie)"],
-        assumptions=["AddSet arguments are sets built through the API (canonical)"],
-        leanchecker=True,
-        level_text="proof: Lean theorems about the mirrored number-set model (canonical form, membership = union, parse/print, enumeration) hold for all operation sequences; the model is tied to internal/imapnum and the public SeqSet/UIDSet wrappers by a differential check on every run",
-        level_note="Trusted: Lean kernel; the differential harness and driver; strconv digit functions modelled. Theorems not yet proved are listed in DESIGN.md and validated by the oracle only.",
-    ),
-}
+PROPS = {}
+for _f in sorted(_glob.glob(_os.path.join(_os.path.dirname(_os.path.abspath(__file__)), "prop_C*.py"))):
+    _name = _os.path.basename(_f)[:-3]
+    try:
+        _m = _importlib.import_module(_name)
+        PROPS[_name[5:]] = _m.CONFIG
+    except Exception as _e:  # a broken in-progress module must not take the other properties down
+        import sys as _sys
+        print("warning: could not load %s: %s" % (_name, _e), file=_sys.stderr)
